@@ -117,13 +117,12 @@ impl BigUint {
 //@ extract src/biguint.rs :: impl BigUint :: fn trailing_zeros rules=R0,R12b,R3k props=C07,C13
     pub fn trailing_zeros(&self) -> /*+*/(r: /*-*/Option<u64>/*+*/)/*-*/
 //+{
-        requires self.dg().len() < MAX_DIGITS()
         ensures r is None <==> self.v() == 0,
             r is Some ==> self.v() % p2(r.unwrap() as nat) == 0 && bitv(self.v(), r.unwrap() as nat),
 //+}
     {
 //+{
-        proof { if forall|j: int| 0 <= j < self.data@.len() ==> self.data@[j] == 0 { lemma_valp_zeros(self.data@, self.data@.len()); } }
+        proof { axiom_vec_u64_len(&self.data); if forall|j: int| 0 <= j < self.data@.len() ==> self.data@[j] == 0 { lemma_valp_zeros(self.data@, self.data@.len()); } }
 //+}
         let i = __pos_nz(&self.data)?;
 //+{
